@@ -9,7 +9,13 @@
 package draw
 
 import (
+	"bytes"
 	"fmt"
+	"golang.org/x/text/encoding/charmap"
+	"golang.org/x/text/encoding/japanese"
+	"golang.org/x/text/encoding/korean"
+	"golang.org/x/text/encoding/simplifiedchinese"
+	"golang.org/x/text/encoding/traditionalchinese"
 	"os"
 	"sort"
 	"strings"
@@ -191,7 +197,12 @@ func drawStyle(t *rapid.T) lm.Style {
 func drawRune(t *rapid.T) rune {
 	switch rapid.IntRange(0, 13).Draw(t, "runeclass") {
 	case 0, 1, 2, 3:
-		return rune(rapid.IntRange(0x20, 0x7e).Draw(t, "ascii"))
+		// ('$' is never drawn, so that "$<" on the wire can only be a padding
+		// specification that was not expanded)
+		if r := rune(rapid.IntRange(0x20, 0x7e).Draw(t, "ascii")); r != '$' {
+			return r
+		}
+		return '#'
 	case 4:
 		return rune(rapid.IntRange(0xa1, 0x17f).Draw(t, "latin"))
 	case 5, 6:
@@ -283,7 +294,11 @@ func drawOps(t *rapid.T, maxW, maxH int, withResize bool) []op {
 		case k < 20:
 			ops = append(ops, op{Kind: "sync"})
 		case k == 20:
-			ops = append(ops, op{Kind: "fill", R: rune(rapid.IntRange(0x20, 0x7e).Draw(t, "fillr")), St: drawStyle(t)})
+			fr := rune(rapid.IntRange(0x20, 0x7e).Draw(t, "fillr"))
+			if fr == '$' {
+				fr = '#'
+			}
+			ops = append(ops, op{Kind: "fill", R: fr, St: drawStyle(t)})
 		case k == 21:
 			ops = append(ops, op{Kind: "clear"})
 		case k == 22:
@@ -370,7 +385,65 @@ func charsetOf(locale string) encoding.Encoding {
 	if strings.EqualFold(name, "UTF-8") {
 		return nil
 	}
+	if e := refEncoding(name); e != nil {
+		return e
+	}
 	return tcell.GetEncoding(name)
+}
+
+// refEncoding is the reference terminal's own idea of a character set, taken
+// from golang.org/x/text by the standard's name - not from the library's
+// registry, which is part of what is being checked (a registry that hands
+// out windows-1252 for ISO8859-1 makes the screen send C1 controls).
+func refEncoding(name string) encoding.Encoding {
+	n := strings.ToUpper(strings.NewReplacer("_", "", "-", "", " ", "").Replace(name))
+	switch n {
+	case "ISO88591", "LATIN1":
+		return charmap.ISO8859_1
+	case "ISO88592":
+		return charmap.ISO8859_2
+	case "ISO88593":
+		return charmap.ISO8859_3
+	case "ISO88594":
+		return charmap.ISO8859_4
+	case "ISO88595":
+		return charmap.ISO8859_5
+	case "ISO88596":
+		return charmap.ISO8859_6
+	case "ISO88597":
+		return charmap.ISO8859_7
+	case "ISO88598":
+		return charmap.ISO8859_8
+	case "ISO88599":
+		return charmap.ISO8859_9
+	case "ISO885910":
+		return charmap.ISO8859_10
+	case "ISO885913":
+		return charmap.ISO8859_13
+	case "ISO885914":
+		return charmap.ISO8859_14
+	case "ISO885915":
+		return charmap.ISO8859_15
+	case "ISO885916":
+		return charmap.ISO8859_16
+	case "KOI8R":
+		return charmap.KOI8R
+	case "KOI8U":
+		return charmap.KOI8U
+	case "SHIFTJIS", "SJIS":
+		return japanese.ShiftJIS
+	case "EUCJP":
+		return japanese.EUCJP
+	case "EUCKR":
+		return korean.EUCKR
+	case "GBK":
+		return simplifiedchinese.GBK
+	case "GB18030":
+		return simplifiedchinese.GB18030
+	case "BIG5":
+		return traditionalchinese.Big5
+	}
+	return nil
 }
 
 func newDW(cfg hx.Config, ch *simrt.Chooser, prop string) (*dw, error) {
@@ -386,6 +459,13 @@ func newDW(cfg hx.Config, ch *simrt.Chooser, prop string) (*dw, error) {
 	w.M = lm.New(cfg.W, cfg.H)
 	w.S.TraceOn = hx.Replaying()
 	w.Tty.OnWrite = func(g string, b []byte) {
+		if i := bytes.Index(b, []byte("$<")); i >= 0 && prop != "C04" {
+			end := i + 12
+			if end > len(b) {
+				end = len(b)
+			}
+			w.fail("C09/syntax", "a padding specification reached the terminal as text: %q", b[i:end])
+		}
 		w.T.Block = w.block
 		w.T.Write(b)
 		if g != "app" {
